@@ -20,7 +20,7 @@ META = {
         "non-trivial when the texture is not uniform (0-3), the mesh has > 1 cell (4) or a "
         "refusal was exercised (5)."
     ),
-    "cases": {"quick": 420, "thorough": 5600},
+    "cases": {"quick": 336, "thorough": 4200},
     "workers": {"quick": 8, "thorough": 16},
     "timeout": {"quick": 600, "thorough": 5400},
     "deciding": [
@@ -642,11 +642,13 @@ def refusals(ctx):
         ctx.expect_raises("C19.refused", dft.demag_tensor, m, unchanged=[m],
                           what={"tool": "demag_tensor", "why": f"ndim={m.region.ndim}"})
     # a four-component field whose first three labels happen to be x, y, z
+    # (every case in the quick tier, a third of the cases in the thorough tier)
     f4 = df.Field(m3, nvdim=4, value=rng.normal(size=(*n3, 4)), vdims=["x", "y", "z", "w"])
-    ctx.expect_raises("C19.refused.extra_component", lambda f: dft.demag_field(f, tensor), f4,
-                      unchanged=[f4],
-                      what={"tool": "demag_field", "why": "nvdim=4 with labels x,y,z,w",
-                            "nvdim": 4, "ndim": 3, "vdims": ["x", "y", "z", "w"]})
+    if not ctx.thorough or rng.random() < 0.33:
+        ctx.expect_raises("C19.refused.extra_component", lambda f: dft.demag_field(f, tensor), f4,
+                          unchanged=[f4],
+                          what={"tool": "demag_field", "why": "nvdim=4 with labels x,y,z,w",
+                                "nvdim": 4, "ndim": 3, "vdims": ["x", "y", "z", "w"]})
     # positive control
     ctx.expect_ok("C19.accepted", lambda: dft.demag_field(fld(m3, 3), tensor))
     ctx.expect_ok("C19.accepted", lambda: dft.topological_charge(fld(m2, 3)))
